@@ -103,10 +103,23 @@ def gen_case(rng, quick, force=None):
 
 
 # ----------------------------------------------------------------------------- implementation
+def _cast(v, how):
+    """parameter presentation (see harness/curhist.py cast_param): same value, other scalar type."""
+    if how in (None, "int", "float"):
+        return v
+    if how == "pyint":
+        return int(v)
+    return getattr(np, how)(v)
+
+
 def make(case):
-    kw = dict(recompute_every=case["re"], k=case["k"], n_to_select=case["stages"][0])
+    pt = case.get("ptypes") or {}
+    kw = dict(recompute_every=_cast(case["re"], pt.get("re")), k=_cast(case["k"], pt.get("k")),
+              n_to_select=_cast(case["stages"][0], pt.get("nts")))
+    if "tol" in pt:
+        kw["tolerance"] = _cast(TOL, pt["tol"])
     if case["kind"] == "pcovcur":
-        kw["mixing"] = case["mixing"]
+        kw["mixing"] = _cast(case["mixing"], pt.get("mixing"))
     return S.make_selector(case["kind"], case["axis"], **kw)
 
 
@@ -140,7 +153,7 @@ def run_impl(case):
         warnings.simplefilter("always")
         try:
             for si, kk in enumerate(case["stages"]):
-                sel.n_to_select = kk
+                sel.n_to_select = _cast(kk, (case.get("ptypes") or {}).get("nts"))
                 if Y is None:
                     sel.fit(X, warm_start=(si > 0))
                 else:
